@@ -150,3 +150,5 @@ func (stp *VerifStepper[Type]) Snapshot() (
 
 	return actual, strategic, tactic, priorities, drained
 }
+
+func (stp *VerifStepper[Type]) WaitCalcTactic() error { return stp.dsc.waitCalcTactic() }
